@@ -58,6 +58,12 @@ def o_locks(prog, lines):
                 if typ == "u64":
                     atom[t[1]] = int(t[3]) if len(t) > 3 else 0
         last_pc = {}       # tid -> (body, pc) of its last logged op
+        # a mutex that a thread-local destructor locks (`tls … lock:m`) is taken and released after the body's `end`
+        # line, at points the log does not show: nothing can be said about it
+        for l in prog:
+            t = l.split()
+            if len(t) > 3 and t[0] == "obj" and t[2] == "tls" and t[3].startswith("lock:"):
+                dead.add(t[3][5:])
 
         def may_be_waiting(t, m):
             """task t may currently be inside Condvar::wait on mutex m (which released m): its body has a
